@@ -176,7 +176,11 @@ def gen_constant(tier, rng):
         a = {"poly": rand_poly(rng, shape=s1, names=names, dtype=rng.choice(["int64", "int64", "float64"]))}
         nz = [-3, -2, -1, 1, 2, 4]
         r = rng.random()
-        if r < 0.2:
+        if rng.random() < 0.15:
+            # a constant divisor of large magnitude: the quotient's coefficients are tiny (1e-16 .. 1e-25), the remainder is still 0
+            big = [4e16, -2.5e17, 1e20, -3e25, 8e16]
+            b = {"num": rng.choice(big)} if r < 0.5 else {"array": nested(rng, s2, big), "dtype": "float64"}
+        elif r < 0.2:
             b = {"num": rng.choice(nz + [0.5, -1.5])}
         elif r < 0.4:
             b = {"array": nested(rng, s2, nz), "dtype": rng.choice(["int64", "float64"])}
@@ -195,7 +199,7 @@ def gen_constant(tier, rng):
 @check("C05", "divmod.constant_divisor", gen_constant, functions=("numpoly.poly_divmod",),
        note="bounded: dividend space of divmod.terminates_identity; divisor a non-zero number, array or constant polynomial, or a "
             "polynomial array in which a random subset of elements is a non-zero constant; on those elements q == dividend/c "
-            "(relative 1e-9) and r == 0")
+            "(relative 1e-9) and r == 0; a seventh of the divisors are constants of magnitude 4e16 .. 3e25 (tiny quotient coefficients)")
 def constant_divisor(inp):
     install_poison()
     q, r, msg = divmod_checked(operand(inp["a"]), operand(inp["b"]))
